@@ -51,6 +51,48 @@ def check_default_instant(fb, chk, rule):
     chk.ob(rule, 'poller:starts-outside-grace', ok, b.where(0), detail)
 
 
+def ctor_constant_of_field(fb, method, v):
+    """`v` is a read of a (nested) field of `*self` inside `method`: the value Default::default() of that type gives the
+    field, when no function of the daemon assigns that field afterwards; else None"""
+    names = []
+    x = v
+    while x[0] == 't' and x[1] == 'field':
+        names.append(str(x[2][1]))
+        x = x[2][0]
+    if not names or not (x[0] == 't' and x[1] == 'deref' and x[2][0][0] == 'sym'):
+        return None
+    names.reverse()
+    dflt = [b for b in fb.bodies(common.DAEMON) if b.name == 'default' and b.impl_self == method.impl_self]
+    if not dflt:
+        return None
+    eng = common.mk_engine(fb)
+    vals = set()
+    for p in eng.run(dflt[0]):
+        if p.kind != 'return':
+            continue
+        val = p.value
+        for nm in names:
+            if val[0] != 'agg':
+                return None
+            adt = eng.find_adt(val[1]) or {}
+            fns = [f['name'] for f in adt.get('variants', [{}])[0].get('fields', [])]
+            if nm not in fns:
+                return None
+            val = val[3][fns.index(nm)]
+        vals.add(val)
+    if len(vals) != 1:
+        return None
+    # never assigned outside constructors: no MIR statement of the daemon assigns a field with that name through a reference
+    leaf = names[-1]
+    for b in fb.bodies(common.DAEMON):
+        for blk in b.blocks:
+            for st_ in blk['stmts']:
+                if st_['k'] == 'assign' and st_['p']['proj'] and st_['p']['proj'][-1].get('k') == 'field' and \
+                        str(st_['p']['proj'][-1].get('name')) == leaf and any(e['k'] == 'deref' for e in st_['p']['proj']):
+                    return None
+    return vals.pop()
+
+
 def _is_file_read(name):
     last = name.split('::')[-1]
     return ('File' in name and last in ('open', 'read_to_string', 'read_to_end', 'read', 'read_exact')) or \
@@ -82,6 +124,11 @@ def run(ctx, chk):
                 if n[0] in ('gt', 'ge'):
                     a, b2 = b2, a
                 l = common.lin_time(b2)
+                if l is None or l.terms:
+                    # the period is kept in a field of the poller: its constructor value, provided nothing assigns it later
+                    cv = ctor_constant_of_field(fb, g, b2)
+                    if cv is not None:
+                        l = common.lin_time(cv)
                 el = a[0] == 't' and a[1] == 'instant_elapsed' and fmt(a[2][0]).startswith('*self.')
                 if l is not None and not l.terms and el:
                     ok = l.const == GRACE_NS
